@@ -608,3 +608,165 @@ def io_case(out, fail, t, rng, scratch, fileno):
             if _compare(out, fail, route, dict(inp0, route=route), nested, res, tips, src_dists=od):
                 bump(out, "io_route", route + ":ok")
         unchanged("write")
+
+
+# --------------------------------------------------------------------------
+# (c) trees whose INTERNAL names are not unique / missing, built without TreeBuilder's renaming
+# --------------------------------------------------------------------------
+def _plain_newick(t, top=True):
+    """own writer: alphanumeric names, lengths as exact decimals of dyadics"""
+    def ln(x):
+        return "" if x is None else ":" + repr(float(x))
+    if not t[2]:
+        return t[0] + ln(t[1])
+    inner = ",".join(_plain_newick(c, False) for c in t[2])
+    return "(" + inner + ")" + (t[0] or "") + ln(t[1]) + (";" if top else "")
+
+
+def _relabel_internal(rng, t, mode):
+    """internal labels: 'support' = bootstrap-style repeated numbers, 'none' = no labels, 'mixed'"""
+    import copy
+
+    t = copy.deepcopy(t)
+
+    def go(x, top):
+        if x[2]:
+            if top:
+                x[0] = ""
+            elif mode == "support":
+                x[0] = rng.choice(["100", "100", "95", "100"])
+            elif mode == "none":
+                x[0] = ""
+            else:
+                x[0] = rng.choice(["100", "", "X", "X"])
+            for c in x[2]:
+                go(c, False)
+
+    go(t, True)
+    return t
+
+
+def _build_variant(t, how):
+    """real tree for the nested form `t` through a route that does NOT make names unique"""
+    from cogent3.core.tree import PhyloNode, TreeNode
+
+    if how == "DndParser":
+        from cogent3.parse.tree import DndParser
+
+        return DndParser(_plain_newick(t), constructor=PhyloNode)
+    if how == "make_tree":
+        import cogent3
+
+        return cogent3.make_tree(_plain_newick(t))
+    cls = PhyloNode if how == "hand-PhyloNode" else TreeNode
+
+    def go(x):
+        kids = [go(c) for c in x[2]]
+        if cls is PhyloNode:
+            return PhyloNode(name=(x[0] or None), children=kids, length=None if x[1] is None else float(x[1]))
+        return TreeNode(name=(x[0] or None), children=kids)
+
+    return go(t)
+
+
+def _cmp_by_tips(out, fail, route, inp, t, res, keep=None, dists=True):
+    """compare the real result with the oracle on `t`, identifying everything by TIP names only"""
+    tips = U.n_tips(t)
+    want_tips = set(tips if keep is None else keep)
+    got_tips = [x.name for x in res.tips()]
+    if set(got_tips) != want_tips or len(got_tips) != len(want_tips):
+        fail(out, f"tip set wrong after {route}", inp, sorted(want_tips), sorted(map(str, got_tips)), f"tips:{route}")
+        return False
+
+    def nested(node):
+        ln = getattr(node, "length", None)
+        return [node.name if not node.children else "", None if ln is None else Fraction(float(ln)), [nested(c) for c in node.children]]
+
+    got = nested(res)
+    want_b = U.oracle_bips(t, keep=want_tips)
+    if want_b != U.oracle_bips(got):
+        fail(out, f"unrooted topology (by tip sets) wrong after {route}", inp, len(want_b), len(U.oracle_bips(got)), f"topology:{route}")
+        return False
+    if dists:
+        od = U.oracle_dists(t)
+        gd = res.get_distances()
+        bad = []
+        for (a, b), v in od.items():
+            if a in want_tips and b in want_tips:
+                g = gd.get((a, b))
+                if g is None or Fraction(float(g)) != v:
+                    bad.append((a, b, str(v), None if g is None else str(Fraction(float(g)))))
+        if bad:
+            fail(out, f"tip-to-tip path length changed by {route}", dict(inp, pairs=bad[:4]), [b[2] for b in bad[:4]], [b[3] for b in bad[:4]], f"dist:{route}")
+            return False
+    return True
+
+
+def nonunique_case(out, fail, t, how, rng):
+    """every transformation on one tree with repeated / missing internal names"""
+    import cogent3
+    from cogent3.util.deserialise import deserialise_object
+
+    tips = U.n_tips(t)
+    phylo = how != "hand-TreeNode"
+    inp0 = dict(tree=U.frac_json(t), built=how)
+    try:
+        real = _build_variant(t, how)
+    except Exception as e:  # noqa: BLE001
+        fail(out, f"building the tree through {how} raised", inp0, "a tree", repr(e)[:160], f"raised:build[{how}]")
+        return
+    out["evaluations"] += 1
+    if not _cmp_by_tips(out, fail, f"build[{how}]", inp0, t, real, dists=phylo):
+        return
+    before = U.snapshot(real)
+    names = [n.name for n in real.traverse() if n.children and n.parent is not None]
+    ops = [("copy", lambda: real.copy()), ("deepcopy", lambda: real.deepcopy()), ("sorted", lambda: real.sorted()),
+           ("rooted_with_tip", lambda: real.rooted_with_tip(rng.choice(tips)))]
+    if phylo:
+        sub = rng.sample(tips, rng.randint(2, len(tips)))
+        ops += [
+            ("root_at_midpoint", lambda: real.root_at_midpoint()),
+            ("unrooted", lambda: real.unrooted()),
+            ("get_sub_tree", (sub, lambda: real.get_sub_tree(sub, tipsonly=True))),
+            ("newick-roundtrip", lambda: cogent3.make_tree(real.get_newick(with_distances=True), underscore_unmunge=True)),
+            ("json-roundtrip", lambda: deserialise_object(real.to_json())),
+        ]
+        uniq = [nm for nm in names if nm is not None and names.count(nm) == 1]
+        if uniq:
+            nm = rng.choice(uniq)
+            ops.append(("rooted_at", lambda: real.rooted_at(nm)))
+    for op in ops:
+        route, f = op
+        keep = None
+        if isinstance(f, tuple):
+            keep, f = f
+        out["evaluations"] += 1
+        r2 = f"{route}[{how}]"
+        inp = dict(inp0, route=route, **({"keep": sorted(keep)} if keep else {}))
+        try:
+            res = f()
+        except Exception as e:  # noqa: BLE001
+            fail(out, f"{r2} raised", inp, "a tree", repr(e)[:160], f"raised:{r2}")
+            continue
+        if _cmp_by_tips(out, fail, r2, inp, t, res, keep=keep, dists=phylo):
+            bump(out, "nonunique_route", f"{route}:ok")
+            out["nontrivial"].add(json.dumps([inp0, route]))
+        if U.snapshot(real) != before:
+            fail(out, f"{r2} modified the tree it was called on", inp, "unmodified", U.snapshot_diff(before, U.snapshot(real)), f"mutated:{r2}")
+            return
+
+
+def spec_nonunique_internal(ctx, out, rng, small, budget, fail):
+    F = Fraction
+    # the tester's class as a fixed first case: midpoint inside an internal branch, repeated label
+    hand = ["", None, [["100", F(3), [["a", F(1), []], ["b", F(2), []]]], ["100", F(6), [["c", F(4), []], ["d", F(5), []]]], ["", F(2), [["e", F(1), []], ["f", F(2), []]]]]]
+    cases = [(hand, h) for h in ("DndParser", "hand-PhyloNode", "make_tree")]
+    for _ in range(30 * budget):
+        n = rng.choice([4, 5, 6, 7, 9, 12, 16])
+        base = U.rand_tree(rng, n, rng.random() < 0.45, rng.random() < 0.4, "none", "pos", False)
+        t = _relabel_internal(rng, base, rng.choice(["support", "none", "mixed"]))
+        for how in ("DndParser", "hand-PhyloNode", "make_tree", "hand-TreeNode"):
+            cases.append((t, how))
+    for t, how in cases:
+        bump(out, "nonunique_built", how)
+        nonunique_case(out, fail, t, how, rng)
